@@ -102,6 +102,8 @@ def declare(t, c, default):
     if t in ("Integer", "Number", "Range") and (c["lo"] != NOB or c["hi"] != NOB):
         kw["bounds"] = (bound(c["lo"]), bound(c["hi"]))
         kw["inclusive_bounds"] = (c["il"], c["ih"])
+    if c.get("soft"):
+        kw["softbounds"] = (3, 3.5)
     if t == "Tuple":
         kw["length"] = 2
     if t == "List" and c["it"] != "none":
